@@ -25,7 +25,14 @@ def planted_pre(rnd, L, sig, tg):
     out = []
     nums = [s for s in ("Int", "Real") if len(sig.vars.get(s, [])) >= 2]
     for _ in range(rnd.randint(1, 3)):
-        k = rnd.choice(["subst", "scaled", "cycle", "chain", "ite", "distinct", "shared"])
+        k = rnd.choice(["subst", "scaled", "cycle", "chain", "ite", "distinct", "shared", "divmod", "divmod"])
+        if k == "divmod":
+            if len(sig.vars.get("Int", [])) >= 2 and not L["dl"]:
+                x, y = rnd.sample(sig.vars["Int"], 2)
+                c = rnd.choice([2, 3, 5, -2, -3, 7])
+                out.append("(%s %s (div %s %s))" % (rnd.choice(["=", "<=", ">"]), y, x, gen.int_lit(c)))
+                out.append("(%s (mod %s %s) %s)" % (rnd.choice(["=", "<", "distinct"]), x, gen.int_lit(c), gen.int_lit(rnd.randint(0, 4))))
+            continue
         if k in ("subst", "scaled") and nums and not L["dl"]:
             s = rnd.choice(nums)
             x, y = rnd.sample(sig.vars[s], 2)
@@ -70,7 +77,8 @@ def planted_pre(rnd, L, sig, tg):
 
 
 def generate(rnd, tier):
-    script, sig, tg = gen.gen_script(rnd, tier, planted_p=0.6, queries=False, engines=False)
+    keys = ["QF_LIA", "QF_UFLIA", "QF_ALIA", "QF_AUFLIA", "QF_AUFLIRA", "ALL"] if rnd.random() < 0.3 else None
+    script, sig, tg = gen.gen_script(rnd, tier, logic_keys=keys, planted_p=0.6, queries=False, engines=False, hist_p=0.75)
     L = gen.LOGICS[script["lk"]]
     extra = planted_pre(rnd, L, sig, tg)
     cmds = list(script["cmds"])
@@ -80,7 +88,28 @@ def generate(rnd, tier):
     for t in extra:
         pos = rnd.randint(lead, max(lead, len(cmds) - 1))
         cmds.insert(pos, ["assert", t])
-    script["cmds"] = cmds
+    # formulas with auxiliary-symbol definitions (div/mod/ite) that were asserted in a level since popped are asserted
+    # again later: the definitions must be given to the SAT engine again
+    out = []
+    levels = [[]]
+    popped = []
+    for c in cmds:
+        out.append(c)
+        if c[0] == "push":
+            for _ in range(c[1]):
+                levels.append([])
+        elif c[0] == "pop":
+            for _ in range(min(c[1], len(levels) - 1)):
+                popped += [t for t in levels.pop() if "(div " in t or "(mod " in t or "(ite " in t]
+            if popped and rnd.random() < 0.6:
+                t = rnd.choice(popped)
+                out.append(["assert", t])
+                levels[-1].append(t)
+                if rnd.random() < 0.8:
+                    out.append(["check-sat"])
+        elif c[0] in ("assert", "assert-named"):
+            levels[-1].append(c[1])
+    script["cmds"] = out
     return script
 
 
